@@ -85,8 +85,10 @@ def dependencies(prop, info, R):
     kind = PROPS[prop].get('denotations', '')
     for f in info.functions:
         k = f['key']
-        if kind in ('layouts', 'all') and (k.startswith('KeyboardLayout for ') or k.startswith('Modifiers::is_')):
-            deps.add(k)
+        if kind in ('layouts', 'wrappers', 'all') and (k.startswith('KeyboardLayout for ') or k.startswith('Modifiers::is_')):
+            # the two AnyLayout impls only matter to the wrapper property (and to C08)
+            if 'AnyLayout' not in k or kind in ('wrappers', 'all'):
+                deps.add(k)
         if kind in ('set1', 'tables', 'all') and k.startswith('ScancodeSet1::map_'):
             deps.add(k)
         if kind in ('set2', 'tables', 'all') and k.startswith('ScancodeSet2::map_'):
@@ -229,6 +231,7 @@ def main(argv=None):
             R = relevant_obligations(prop, info, lemma_obs)
             res = verus.run(gen_path, info, seed=seed, multiple_errors=50)
             mine, tool, other = classify(prop, res.failures, R, info)
+            opaque |= set(info.opaque)
             if not tool:
                 break
             new = offending_functions(tool, info) - opaque
